@@ -362,21 +362,30 @@ def c13(ctx):
 def c15(ctx):
     ctx.assumptions += ["time is abstracted: a lease is written either with +1h (unexpired for the whole run) or -1h (already expired)",
                         "the managers of all nodes share one real kv.RaftStore on a one-node NodeHost (a local read after an acknowledged write is current); replica lag of the metadata shard is not part of this check",
-                        "store calls are released one at a time in the order of a TLC-generated schedule (gated store wrapper)"]
+                        "store calls are released one at a time in the order of a TLC-generated schedule (gated store wrapper); every behaviour ends with a sequential epilogue in which the other nodes list the tables, delete the leased table and ask for the lease while it is held",
+                        "batched races: 2-4 managers call LeaseTable at once while the metadata state machine is parked (verif hook) on a preceding proposal, so that their compare-and-set entries are applied in one batch"]
     q = ctx.quick
     ctx.design("Lease", "MC_Lease_quick.cfg")
     beh = ctx.generate("Lease", "MC_Lease_gen.cfg", num=1500 if q else 30000, depth=16)
-    ctx.gv("tlc-schedules", "Trace_Lease", ["lease"], inputs=beh)
+    if not ctx.gv("tlc-schedules", "Trace_Lease", ["lease"], inputs=beh):
+        return
+    # racing requests whose compare-and-set proposals reach the metadata state machine as ONE apply batch
+    ctx.gv("batched-races", "Trace_Lease", ["lease", "--races", str(150 if q else 3000), "--seed", str(seed())], racy=True)
 
 
 @check("C14")
 def c14(ctx):
-    ctx.assumptions += ["two table.Manager instances share one real NodeHost and one real kv.RaftStore (a local metadata read after an acknowledged write is current); metadata-shard replica lag is not part of this check",
-                        "store calls are released one at a time in the order of a TLC-generated schedule (gated store wrapper); shards really start and data goes through Raft and Pebble on an in-memory FS"]
+    ctx.assumptions += ["racing calls: two table.Manager instances share one real NodeHost and one real kv.RaftStore (a local metadata read after an acknowledged write is current); store calls are released one at a time in the order of a TLC-generated schedule (gated store wrapper); shards really start and data goes through Raft and Pebble on an in-memory FS",
+                        "replica lag: three real engines form one cluster; the metadata state machine of one node is parked in the verif hook (kv.LFSM.Update) while tables are created / deleted through another node, then the lagging node is asked; these calls never overlap"]
     q = ctx.quick
     ctx.design("Catalog", "MC_Catalog_quick.cfg" if q else "MC_Catalog_thorough.cfg")
+    # calls that never overlap, issued through nodes whose metadata replica lags (every read is a local read), and without lag
+    ctx.design("Catalog", "MC_Catalog_lag.cfg")
+    ctx.design("Catalog", "MC_Catalog_seq.cfg")
     beh = ctx.generate("Catalog", "MC_Catalog_gen.cfg", num=160 if q else 2500, depth=40)
-    ctx.gv("tlc-schedules", "Trace_Catalog", ["catalog", "--seed", str(seed())], inputs=beh)
+    if not ctx.gv("tlc-schedules", "Trace_Catalog", ["catalog", "--seed", str(seed())], inputs=beh):
+        return
+    ctx.gv("lagging-replicas", "Trace_Catalog", ["cataloglag", "--seed", str(seed()), "--n", str(4 if q else 60)])
 
 
 @check("C19")
@@ -409,7 +418,7 @@ def c11(ctx):
 @check("C06")
 def c06(ctx):
     ctx.assumptions += ["the Raft log under the readers is a harness implementation of dragonboat's ReadonlyLogReader contract (GetRange = (marker+1, last); Entries = longest prefix within maxSize, at least one entry), transcribed from internal/logdb/logreader.go",
-                        "cache invalidation on compaction is applied atomically with the compaction (the engine does it asynchronously from the LogCompacted event)",
+                        "harness-level schedules: cache invalidation on compaction is applied atomically with the compaction; engine-level runs: the driver waits after a compaction until the LogCompacted event has emptied the cache (a request for the last compacted index is answered 'use snapshot', or 3 s passed) - answers given from the cache inside that window are not judged",
                         "where a size limit cuts an answer is not pinned; only contiguity, labels, bounds, the special answers and 'at least one entry' are"]
     q = ctx.quick
     ctx.design("MC_LogReader", "MC_LogReader_quick.cfg" if q else "MC_LogReader_thorough.cfg")
@@ -419,7 +428,12 @@ def c06(ctx):
     # adversarial schedules: every behaviour (<= 7 steps, 2 sessions) on which the model of the PINNED commit
     # (Mode = asis: fixSize may return nothing, cache.get may return nothing for an overlapping range) breaks the property
     adv = ctx.adversarial("MC_LogReader", "MC_LogReader_adv.cfg", keep=1500 if q else 20000)
-    ctx.gv("tlc-adversarial", "Trace_LogReader", ["logreader", "--seed", str(seed())], inputs=adv)
+    if not ctx.gv("tlc-adversarial", "Trace_LogReader", ["logreader", "--seed", str(seed())], inputs=adv):
+        return
+    # end to end: a real engine (real Raft log and compaction, LogCompacted through the engine's event dispatcher, cache
+    # sizes 0/4/64/1000, message limits) behind the real LogServer; sequential, so every call's applied index and
+    # compaction point are exact; some entries carry a leader index of their own inside the command
+    ctx.gv("engine-log-streams", "Trace_LogReader", ["logengine", "--seed", str(seed()), "--n", str(6 if q else 80)])
 
 
 @check("C07")
